@@ -102,6 +102,20 @@ theorem C17_reader (s : State) (xs : List Txn) (rms : List Path) (k1 k2 : Nat) (
       rw [hr] at hxr; exact Option.some.inj hxr
     · rw [hr] at h; cases h
 
+/-- I/O error while writing: notedownSrc closes the file and removes the temp file (then logx.Fatalf). Wherever that
+    happens, the two extra ops change nothing but the temp entry, which is gone afterwards — so everything `C17_atomic`,
+    `C17_frame` say about the crash prefix `k` still holds after the error exit. (A failed rename or a failed unlink
+    stops the run AT a crash prefix: the crash theorems apply as they are; the temp file of a failed rename stays.) -/
+theorem C17_write_error_cleanup (s : State) (ops : List Op) (t : Path) :
+    (∀ n, n ≠ t → read (exec s (ops ++ [.close, .remove t])) n = read (exec s ops) n) ∧
+    (exec s (ops ++ [.close, .remove t])).dir t = none := by
+  rw [exec_append]
+  simp only [exec, List.foldl, step]
+  constructor
+  · intro n hn
+    simp [read, upd_other _ _ _ _ hn]
+  · simp
+
 /-- on normal termination no temporary file is left -/
 theorem C17_no_temp_left (s : State) (xs : List Txn) (rms : List Path) (hfresh : freshTemps s xs) :
     ∀ t ∈ tmps xs, (exec s (runOps xs rms)).dir t = none :=
